@@ -53,6 +53,9 @@ func init() {
 	regDep("math/big.NewInt", []string{"BigVal", "next"}, "big.NewInt(x): fresh *big.Int with value x", func(ex *Exec, st *State, c *ssa.Call, a []SV) SV {
 		r := ex.allocRef(st)
 		ex.setBig(st, r, a[0].T)
+		if ex.isInit && isNumeral(r.S) && isNumeral(a[0].T.S) {
+			ex.p.initBig[r.S] = a[0].T.S
+		}
 		return Scalar(r)
 	})
 	deps[B+"Add"] = bigBin("z.Add(x,y): val(z)=val(x)+val(y); returns z", func(ex *Exec, st *State, c *ssa.Call, x, y Term) Term { return Add(x, y) })
